@@ -2,9 +2,9 @@ import AiocoapModel.Basic.Bytes
 /-!
 Block option value as the block-wise *client* sees it: model of
 `aiocoap.optiontypes.BlockOption.BlockwiseTuple` (optiontypes.py:168-222) and of
-`Message._extract_block` (message.py:422-444), restricted to the non-BERT size
-exponents 0..6 (BERT, szx 7, only exists on reliable transports and is out of the model:
-the driver answers `out-of-model` when a 7 appears anywhere).
+`Message._extract_block` (message.py:421-444), for the size exponents 0..6 and for BERT
+(szx 7, RFC 8323 section 6: what a remote with `maximum_block_size_exp` 7 uses -- block numbers
+count 1024-byte units and a message carries a whole number of them).
 
 Everything of the C05 model lives in namespace `Aiocoap.BwClient`.
 -/
@@ -23,24 +23,38 @@ def BlockOpt.size (b : BlockOpt) : Nat := 2 ^ (min b.szx 6 + 4)
 /-- `start`: `self.block_number * self.size` (optiontypes.py:177-188) -/
 def BlockOpt.start (b : BlockOpt) : Nat := b.num * b.size
 
-/-- `is_valid_for_payload_size`, the non-BERT branch (optiontypes.py:194-203):
-a block with the more flag carries exactly `size` bytes, the last one at most `size`. -/
+/-- `is_valid_for_payload_size` (optiontypes.py:194-203). Not BERT: a block with the more flag
+carries exactly `size` bytes, the last one at most `size`. BERT (`is_bert`: exponent 7): a block
+with the more flag carries a whole number of KiB (0 included), the last one anything. -/
 def BlockOpt.validFor (b : BlockOpt) (payloadSize : Nat) : Bool :=
-  if b.more then payloadSize == b.size else decide (payloadSize ≤ b.size)
+  if b.szx = 7 then
+    if b.more then payloadSize % 1024 == 0 else true
+  else if b.more then payloadSize == b.size else decide (payloadSize ≤ b.size)
 
-/-- `reduced_to(maximum_exponent)` (optiontypes.py:205-222), without the BERT special case:
-`block_number << (min(szx, 6) - maximum_exponent)`. -/
+/-- what the CLIENT's assembly of a block-wise response accepts (message.py:491-498
+`_append_response_block`, protocol.py:1213-1225 for the first block): a valid payload size, and
+(a fix) a block with the more flag carries at least one byte -- an empty BERT block "with more to
+come" would not advance the transfer and the same block would be asked for again -/
+def BlockOpt.okFor (b : BlockOpt) (payloadSize : Nat) : Bool :=
+  b.validFor payloadSize && !(b.more && payloadSize == 0)
+
+/-- `reduced_to(maximum_exponent)` (optiontypes.py:209-226):
+`block_number << (min(szx, 6) - maximum_exponent)`. The code's special case "exponent 7 capped
+to 6 keeps the number" is what this formula gives there (`min 7 6 - 6 = 0`, `reducedTo_bert`
+in `Proofs/Blockwise/C05Basic.lean`). -/
 def BlockOpt.reducedTo (b : BlockOpt) (maxExp : Nat) : BlockOpt :=
   if maxExp ≥ b.szx then b
   else { num := b.num <<< (min b.szx 6 - maxExp), more := b.more, szx := maxExp }
 
-/-- `Message._extract_block(number, size_exp, …)` for `size_exp ≤ 6` (message.py:422-444):
+/-- `Message._extract_block(number, size_exp, max_bert_size)` (message.py:421-444):
 `none` is `BadRequest("Block request out of bounds")`; otherwise the block option
-`(number, more, size_exp)` and the slice `payload[start:end]`. -/
-def extractBlock (payload : Bytes) (number szx : Nat) : Option (BlockOpt × Bytes) :=
-  let size := 2 ^ (szx + 4)
-  let start := number * size
-  if start ≥ payload.length then none
+`(number, more, size_exp)` and the slice `payload[start:end]`. For BERT the block number counts
+KiB and the slice is `1024 * (max_bert_size // 1024)` bytes long. Block 0 of an empty payload is
+the empty payload (a fix; only reachable with the deprecated Block1 size hint). -/
+def extractBlock (payload : Bytes) (number szx maxBert : Nat) : Option (BlockOpt × Bytes) :=
+  let size := if szx = 7 then 1024 * (maxBert / 1024) else 2 ^ (szx + 4)
+  let start := if szx = 7 then number * 1024 else number * 2 ^ (szx + 4)
+  if start ≥ payload.length ∧ start > 0 then none
   else
     let stop := if start + size < payload.length then start + size else payload.length
     let more := decide (stop < payload.length)
